@@ -347,4 +347,146 @@ theorem slowDomain_bell {F : FTy} (hF : IsLemireFloat F) {p eb : Nat} (lay : Lay
       (htvM T t1 t2 hneg) hbel hinv).2.2 hch41)
   exact ⟨D, hwb⟩
 
+/-! ## the two kinds of `Number` -/
+
+/-- `S = w·10^A + tail`, `tail < 10^A`, `q = A + E − fl`: `S·10^(E − fl)` is a true value of the truncated `⟨w, q⟩` -/
+theorem interval_tv (S w A fl : Nat) (q E : Int) (neg : Bool) (hS1 : w * 10 ^ A ≤ S) (hS2 : S < (w + 1) * 10 ^ A)
+    (hq : q = (A : Int) + E - fl) :
+    TrueValue 10 ⟨w, q, neg, true⟩ (S * 10 ^ E.toNat) (10 ^ fl * 10 ^ (-E).toNat) := by
+  unfold TrueValue
+  simp only [if_true]
+  rw [powFrac_eq, powFrac_eq]
+  dsimp only
+  have hexp : q.toNat + (fl + (-E).toNat) = A + E.toNat + (-q).toNat := by omega
+  generalize q.toNat = a at *
+  generalize (-q).toNat = b at *
+  generalize E.toNat = e1 at *
+  generalize (-E).toNat = e2 at *
+  have k1 : w * 10 ^ a * (10 ^ fl * 10 ^ e2) = w * 10 ^ A * (10 ^ e1 * 10 ^ b) := by
+    calc w * 10 ^ a * (10 ^ fl * 10 ^ e2) = w * 10 ^ (a + (fl + e2)) := by rw [Nat.pow_add, Nat.pow_add]; ring
+      _ = w * 10 ^ A * (10 ^ e1 * 10 ^ b) := by rw [hexp, Nat.pow_add, Nat.pow_add]; ring
+  have k2 : (w + 1) * 10 ^ a * (10 ^ fl * 10 ^ e2) = (w + 1) * 10 ^ A * (10 ^ e1 * 10 ^ b) := by
+    calc (w + 1) * 10 ^ a * (10 ^ fl * 10 ^ e2) = (w + 1) * 10 ^ (a + (fl + e2)) := by
+          rw [Nat.pow_add, Nat.pow_add]; ring
+      _ = (w + 1) * 10 ^ A * (10 ^ e1 * 10 ^ b) := by rw [hexp, Nat.pow_add, Nat.pow_add]; ring
+  have hpos : 0 < 10 ^ e1 * 10 ^ b := Nat.mul_pos (Nat.pow_pos (by decide)) (Nat.pow_pos (by decide))
+  constructor
+  · rw [k1]
+    calc w * 10 ^ A * (10 ^ e1 * 10 ^ b) ≤ S * (10 ^ e1 * 10 ^ b) := Nat.mul_le_mul_right _ hS1
+      _ = S * 10 ^ e1 * 10 ^ b := by ring
+  · rw [k2]
+    calc S * 10 ^ e1 * 10 ^ b = S * (10 ^ e1 * 10 ^ b) := by ring
+      _ < (w + 1) * 10 ^ A * (10 ^ e1 * 10 ^ b) := Nat.mul_lt_mul_of_pos_right hS2 hpos
+
+/-- an exact value is a true value of the untruncated `⟨w, q⟩` -/
+theorem exact_tv (w : Nat) (q : Int) (neg : Bool) (num den : Nat)
+    (h : (powFrac 10 q w).1 * den = num * (powFrac 10 q w).2) : TrueValue 10 ⟨w, q, neg, false⟩ num den := by
+  unfold TrueValue
+  simp only [Bool.false_eq_true, if_false]
+  exact ⟨Nat.le_of_eq h, Nat.le_of_eq h.symm⟩
+
+/-- **untruncated `Number`s of a `compact` build** -/
+theorem slowDomain_bell_exact {F : FTy} (hF : IsLemireFloat F) {p eb : Nat} (lay : Layout F p eb) (c : Cfg)
+    (hr : c.mantissaRadix = 10) (hb : c.exponentBase = 10) (n : Number) (hmany : n.manyDigits = false)
+    (hx : NumberExactAt c n) (hs : PlainSlices c n) (hfew : (sigBytes n.integer n.fraction).length ≤ 19)
+    (fp : ExtendedFloat80) (hbel : Bellerophon.bellerophon F compactP (numOf n) false = .ok fp) (hinv : fp.exp < 0) :
+    ∃ d, SlowDomain c F p n { fp with exp := fp.exp - invalidFp } d ∧
+      Bracket F fp (litFrac 10 10 (numberLit c n)).1 (litFrac 10 10 (numberLit c n)).2 := by
+  obtain ⟨hw, hq, hre⟩ := hx
+  obtain ⟨hw0, _, _⟩ := bell_invalid_range hF (numOf n) hbel hinv
+  have hw0' : n.mantissa ≠ 0 := hw0
+  obtain ⟨d, hd, hd19⟩ := maxDigits_decimal c.feats hF
+  have hnum : numOf n = ⟨n.mantissa, n.exponent, n.isNegative, false⟩ := by unfold numOf; rw [hmany]
+  -- the digits
+  have hvs : ValidDigits 10 (sigBytes n.integer n.fraction) := by
+    have := valid_sigBytes hs.validInt hs.validFrac
+    rwa [hr] at this
+  have hbs : ∀ x ∈ sigBytes n.integer n.fraction, x < 256 := by
+    intro x hx
+    rcases mem_sigBytes hx with h | ⟨fr, hfr, h⟩
+    · exact hs.bytesInt x h
+    · exact hs.bytesFrac fr hfr x h
+  obtain ⟨z, hz⟩ := sig_decomp n.integer n.fraction
+  have hD : ofDigits 10 ((numberLit c n).intDigits ++ (numberLit c n).fracDigits) =
+      ofDigits 10 (dv 10 (sigBytes n.integer n.fraction)) := by
+    rw [hs.intDigits, hs.fracDigits, hr]
+    have : dv 10 n.integer ++ dv 10 (n.fraction.getD []) = dv 10 (n.integer ++ n.fraction.getD []) := by
+      unfold dv; rw [List.map_append]
+    rw [this, hz, ofDigits_dv_zeros]
+  have hfl : (numberLit c n).fracDigits.length = (n.fraction.getD []).length := by
+    rw [hs.fracDigits, dv_length]
+  have hE : (numberLit c n).exp = n.explicitExp := rfl
+  have hV : litFrac 10 10 (numberLit c n) =
+      (ofDigits 10 (dv 10 (sigBytes n.integer n.fraction)) * 10 ^ n.explicitExp.toNat,
+        10 ^ (n.fraction.getD []).length * 10 ^ (-n.explicitExp).toNat) := by
+    rw [litFrac_eq, hD, hfl, hE]
+  rw [hr, hb, powFrac_eq, hV] at hre
+  unfold RatEq at hre
+  simp only at hre
+  have hm0 : 0 < n.mantissa := Nat.pos_of_ne_zero hw0'
+  have hS0 : ofDigits 10 (dv 10 (sigBytes n.integer n.fraction)) ≠ 0 := by
+    intro h0
+    rw [h0, Nat.zero_mul, Nat.zero_mul] at hre
+    have : 0 < n.mantissa * 10 ^ n.exponent.toNat *
+        (10 ^ (n.fraction.getD []).length * 10 ^ (-n.explicitExp).toNat) :=
+      Nat.mul_pos (Nat.mul_pos hm0 (Nat.pow_pos (by decide)))
+        (Nat.mul_pos (Nat.pow_pos (by decide)) (Nat.pow_pos (by decide)))
+    omega
+  have hne : sigBytes n.integer n.fraction ≠ [] := by
+    intro h0; rw [h0] at hS0; exact hS0 rfl
+  obtain ⟨sb1, sb2⟩ := sig_value_bounds (radix := 10) (by decide) (integer := n.integer) (fraction := n.fraction)
+    hne hvs hbs
+  have hlen : 1 ≤ (sigBytes n.integer n.fraction).length := List.length_pos_iff.mpr hne
+  have hmant : C01Slow.mantissaOf 10 d (sigBytes n.integer n.fraction) =
+      (ofDigits 10 (dv 10 (sigBytes n.integer n.fraction)), (sigBytes n.integer n.fraction).length) := by
+    unfold C01Slow.mantissaOf; rw [if_pos (by omega)]
+  generalize hsig : sigBytes n.integer n.fraction = sig at *
+  generalize hS : ofDigits 10 (dv 10 sig) = S at *
+  generalize hfle : (n.fraction.getD []).length = fl at *
+  have hkey : ∀ T : Nat, 10 ^ T ≤ n.mantissa → n.mantissa < 10 ^ (T + 1) →
+      n.exponent + T + 1 - (sig.length : Int) = n.explicitExp - (fl : Int) := by
+    intro T t1 t2
+    have hu := exp_unique (r := 10) (by decide) (a := n.mantissa) (b := S)
+      (P := n.exponent.toNat + (fl + (-n.explicitExp).toNat)) (Q := n.explicitExp.toNat + (-n.exponent).toNat)
+      (A := T) (B := sig.length - 1) (by
+        rw [Nat.pow_add, Nat.pow_add, Nat.pow_add]
+        calc n.mantissa * (10 ^ n.exponent.toNat * (10 ^ fl * 10 ^ (-n.explicitExp).toNat))
+            = n.mantissa * 10 ^ n.exponent.toNat * (10 ^ fl * 10 ^ (-n.explicitExp).toNat) := by ring
+          _ = S * 10 ^ n.explicitExp.toNat * 10 ^ (-n.exponent).toNat := hre
+          _ = S * (10 ^ n.explicitExp.toNat * 10 ^ (-n.exponent).toNat) := by ring)
+      t1 t2 sb1 (by rw [Nat.sub_add_cancel hlen]; exact sb2)
+    omega
+  refine ⟨d, ?_⟩
+  apply slowDomain_bell hF lay c hr hb n hs (by rw [hsig]; exact hne) hw
+    (by rw [hmany]; intro h; exact absurd h (by decide))
+    (by rw [hsig, hfle]; exact hkey) d hd S sig.length (by rw [hsig]; exact hmant) sb2 (by omega) ?_ ?_ fp hbel hinv
+  · -- the value of the digits
+    rw [hnum, hV]
+    apply exact_tv
+    rw [powFrac_eq]
+    exact hre
+  · -- `S / 10^j`
+    intro T t1 t2 hneg
+    rw [hnum]
+    apply exact_tv
+    rw [powFrac_eq]
+    dsimp only
+    have hk := hkey T t1 t2
+    have e3 : n.explicitExp.toNat + (-(n.exponent + ↑T + 1 - (sig.length : Int))).toNat =
+        fl + (-n.explicitExp).toNat := by omega
+    have hpos : 0 < 10 ^ fl * 10 ^ (-n.explicitExp).toNat :=
+      Nat.mul_pos (Nat.pow_pos (by decide)) (Nat.pow_pos (by decide))
+    apply Nat.eq_of_mul_eq_mul_right hpos
+    calc n.mantissa * 10 ^ n.exponent.toNat * 10 ^ (-(n.exponent + ↑T + 1 - (sig.length : Int))).toNat *
+          (10 ^ fl * 10 ^ (-n.explicitExp).toNat)
+        = n.mantissa * 10 ^ n.exponent.toNat * (10 ^ fl * 10 ^ (-n.explicitExp).toNat) *
+            10 ^ (-(n.exponent + ↑T + 1 - (sig.length : Int))).toNat := by ring
+      _ = S * 10 ^ n.explicitExp.toNat * 10 ^ (-n.exponent).toNat *
+            10 ^ (-(n.exponent + ↑T + 1 - (sig.length : Int))).toNat := by rw [hre]
+      _ = S * 10 ^ (-n.exponent).toNat *
+            10 ^ (n.explicitExp.toNat + (-(n.exponent + ↑T + 1 - (sig.length : Int))).toNat) := by
+          rw [Nat.pow_add]; ring
+      _ = S * 10 ^ (-n.exponent).toNat * (10 ^ fl * 10 ^ (-n.explicitExp).toNat) := by
+          rw [e3, Nat.pow_add]
+
 end LexVerif.Props.C01Compact
